@@ -32,7 +32,7 @@ import (
 
 func init() {
 	props["C05"] = func(r *Rec) { runStake(r, "C05"); c05UpgradeFlow(r, "C05"); c05DuplicateConsKey(r, "C05") }
-	props["C15"] = func(r *Rec) { runStake(r, "C15") }
+	props["C15"] = func(r *Rec) { runStake(r, "C15"); c15DupKeyKeepsDeadline(r) }
 }
 
 type stakeEp struct {
@@ -1183,5 +1183,95 @@ func c05DuplicateConsKey(r *Rec, prop string) {
 		if (val.Status == stakingtypes.Active) != inSet[string(val.GetConsAddr())] {
 			r.Known("C05/claim/consensus-key-of-another-validator", fmt.Sprintf("%s: after validator 0 paused, the validator of account %d has status %s and its consensus key is in the set: %v (two validator records behind one consensus key)", label, i, val.Status, inSet[string(val.GetConsAddr())]))
 		}
+	}
+}
+
+// c15DupKeyKeepsDeadline: validator 0 is inactivated for downtime (its inactivity period runs); an account then claims a seat
+// announcing validator 0's consensus key (recorded finding C05/claim/consensus-key-of-another-validator) and joins. The
+// signing record of that key - its deadline included - belongs to validator 0's downtime: validator 0 is still re-activated
+// only after its inactivity period.
+func c15DupKeyKeepsDeadline(r *Rec) {
+	label := "inactive validator whose consensus key is announced by another claim"
+	r.Mark(label)
+	w := NewWorld(WorldOpts{NAcc: 6, NVal: 3, SudoAccs: []int{5}})
+	gk := w.app.CustomGovKeeper
+	ctx0 := w.KeeperCtx()
+	np := gk.GetNetworkProperties(ctx0)
+	np.MischanceConfidence, np.MaxMischance, np.DowntimeInactiveDuration = 1, 1, 3600
+	if err := gk.SetNetworkProperties(ctx0, np); err != nil {
+		r.Count("dup-key-deadline:setup-failed")
+		return
+	}
+	a, ok := gk.GetNetworkActorByAddress(ctx0, w.addrs[3])
+	if !ok {
+		a = govtypes.NewDefaultActor(w.addrs[3])
+	}
+	if err := gk.AddWhitelistPermission(ctx0, a, govtypes.PermClaimValidator); err != nil {
+		r.Count("dup-key-deadline:setup-failed")
+		return
+	}
+	status := func() stakingtypes.ValidatorStatus {
+		v, err := w.app.CustomStakingKeeper.GetValidator(w.ReadCtx(), sdk.ValAddress(w.addrs[0]))
+		if err != nil {
+			return stakingtypes.Undefined
+		}
+		return v.Status
+	}
+	idx0 := func() int {
+		v, _ := w.app.CustomStakingKeeper.GetValidator(w.ReadCtx(), sdk.ValAddress(w.addrs[0]))
+		for i, cv := range w.valSet.Validators {
+			if string(cv.Address) == string(v.GetConsAddr()) {
+				return i
+			}
+		}
+		return -1
+	}
+	step := func(txs [][]byte, absent0 bool) (BlockResult, bool) {
+		o := BlockOpts{Dt: 6 * time.Second}
+		if i := idx0(); absent0 && i >= 0 {
+			o.Absent = map[int]bool{i: true}
+		}
+		br := w.Block(txs, o)
+		if br.Panicked != nil {
+			r.Count("dup-key-deadline:block-panicked")
+			return br, false
+		}
+		if err := w.ApplyUpdates(br.Updates); err != nil {
+			r.Count("dup-key-deadline:updates-rejected")
+			return br, false
+		}
+		return br, true
+	}
+	for b := 0; b < 12 && status() == stakingtypes.Active; b++ {
+		if _, ok := step(nil, true); !ok {
+			return
+		}
+	}
+	if status() != stakingtypes.Inactive {
+		r.Count("dup-key-deadline:not-inactivated")
+		return
+	}
+	cm, err := stakingtypes.NewMsgClaimValidator("second-owner", sdk.ValAddress(w.addrs[3]), detConsKey(0).PubKey())
+	if err != nil {
+		return
+	}
+	br, okB := step([][]byte{w.MustSign([]sdk.Msg{cm}, 3, ukex(5000))}, false)
+	if !okB || len(br.Results) != 1 || br.Results[0].Code != 0 {
+		r.Count("dup-key-deadline:claim-refused") // a repaired claim handler: nothing to see
+		return
+	}
+	if _, okB = step(nil, false); !okB {
+		return
+	}
+	// ten minutes into an inactivity period of an hour: the owner of validator 0 asks to come back
+	br, okB = step([][]byte{w.MustSign([]sdk.Msg{slashingtypes.NewMsgActivate(sdk.ValAddress(w.addrs[0]))}, 0, ukex(5000))}, false)
+	if !okB {
+		return
+	}
+	accepted := len(br.Results) == 1 && br.Results[0].Code == 0
+	r.Count(fmt.Sprintf("dup-key-deadline:early-activate-accepted=%v", accepted))
+	r.Case(label, true)
+	if accepted || status() == stakingtypes.Active {
+		r.Fail("C15/activate/before-inactive-until", fmt.Sprintf("%s: validator 0 was inactivated for downtime with an inactivity period of 3600 s; after another account joined announcing its consensus key, its MsgActivate was accepted %d s into the period (status now %s)", label, int(w.now.Sub(w.t0).Seconds()), status()), nil)
 	}
 }
